@@ -119,6 +119,20 @@ func corrMain(args []string) {
 		os.Exit(2)
 	}
 	t0 := time.Now()
+	// global watchdog: whatever the code under test does, this process ends and says why
+	budget := 10 * time.Minute
+	if *tier == "thorough" {
+		budget = 90 * time.Minute
+	}
+	time.AfterFunc(budget, func() {
+		rep := &Report{Property: p.ID, Seed: *seed, Tier: *tier, Rule: p.Rule, Distribution: map[string]int{}, Diffs: []Diff{}, Samples: []string{},
+			Violations: []Viol{{Key: "harness-timeout", What: "the run did not finish within its time budget (a call into the code under test hangs or is extremely slow)", Req: "(whole run)", Impl: "TIMEOUT", Want: "termination"}}}
+		b, _ := json.MarshalIndent(rep, "", " ")
+		if *report != "" {
+			os.WriteFile(*report, b, 0o644)
+		}
+		os.Exit(4)
+	})
 	g := &G{R: NewRNG(uint64(*seed)), Tier: *tier, Seed: *seed}
 	if *one != "" {
 		g.Add(Case{Req: *one, NT: true, Class: "replay"})
